@@ -781,7 +781,7 @@ def explore_parallel(make_explorer, nproc, bits=22):
             if os.environ.get("VERIF_WATCHDOG"):
                 import faulthandler
                 faulthandler.dump_traceback_later(int(os.environ["VERIF_WATCHDOG"]), exit=True)
-            par.pin_self(par._ALL_CPUS[wi % len(par._ALL_CPUS)])
+            par.pin_self(par._ALL_CPUS[(os.getppid() + wi) % len(par._ALL_CPUS)])
             ex = make_explorer()
             ex.cache = cache
             if ex.pbound is None:
